@@ -100,6 +100,30 @@ def broadcast_layout(run, repo):
     return n
 
 
+def reflected_ops(run, repo, rel, rule='R7.reflect'):
+    """A reflected dunder of a non-commutative operation (`__rmatmul__`, `__rsub__`, `__rtruediv__`) receives the LEFT operand
+    as its argument: returning `self <op> other` (or self.__op__(other)) computes the operands in the wrong order."""
+    OPS = {'__rmatmul__': (ast.MatMult, '__matmul__', '@'), '__rsub__': (ast.Sub, '__sub__', '-'), '__rtruediv__': (ast.Div, '__truediv__', '/')}
+    n = 0
+    for q, fm in sorted(repo.module(rel).funcs.items()):
+        nm = q.split('.')[-1]
+        if nm not in OPS or len(fm.posparams) != 2:
+            continue
+        opc, fwd, sym = OPS[nm]
+        o = fm.posparams[1]
+        from ..names import inlined
+        for st, ctx in walk(fm.node):
+            if isinstance(st, ast.Return) and st.value is not None:
+                n += 1
+                v = inlined(fm, st.value)
+                same = (isinstance(v, ast.BinOp) and isinstance(v.op, opc) and norm(v.left) == 'self' and norm(v.right) == o) or \
+                    (isinstance(v, ast.Call) and isinstance(v.func, ast.Attribute) and v.func.attr == fwd and norm(v.func.value) == 'self'
+                     and [norm(a) for a in v.args] == [o])
+                run.check(not same, rule, fm, st, '%s(self, %s) stands for `%s %s self`; it returns `self %s %s`, the operands in the wrong order '
+                          '(the operation is not commutative)' % (nm, o, o, sym, sym, o))
+    return n
+
+
 def check(run):
     repo = run.repo
     for rel, name, shape, ops, kind in K.KERNELS:
@@ -114,6 +138,11 @@ def check(run):
             fm = repo.func(rel, q)
             dispatch.check_function(run, repo, fm)
             effect.check_pure(run, eff_, fm)
+        reflected_ops(run, repo, rel)
+        # a product written out in any other product dunder of the module is held to the same record
+        for q, fm in sorted(repo.module(rel).funcs.items()):
+            if q.endswith(('.__matmul__', '.__rmatmul__')) and q != 'Pauli.__matmul__':
+                K.product_sites(run, fm, order='params')
     # product sites
     for rel in (K.PY_P, K.TC_P):
         f = repo.func(rel, 'Pauli.__matmul__')
